@@ -101,10 +101,33 @@ def not_fitted_outcome(calls):
     return "notfitted"
 
 
+def walk_params(est):
+    """Independent derivation of the deep parameter dictionary: the shallow parameters, and recursively
+    <name>__<param> for every estimator-valued parameter and every (name, estimator, ...) entry of a list parameter."""
+    out = {}
+    for k, v in est.get_params(deep=False).items():
+        out[k] = v
+        if hasattr(v, "get_params") and not isinstance(v, type):
+            for kk, vv in walk_params(v).items():
+                out[k + "__" + kk] = vv
+        elif isinstance(v, list) and v and all(isinstance(t, tuple) and len(t) >= 2 and isinstance(t[0], str) for t in v):
+            for t in v:
+                out[t[0]] = t[1]
+                if hasattr(t[1], "get_params") and not isinstance(t[1], type):
+                    for kk, vv in walk_params(t[1]).items():
+                        out[t[0] + "__" + kk] = vv
+    return out
+
+
+def deep_closure_ok(est):
+    w, d = walk_params(est), est.get_params(deep=True)
+    return set(w) == set(d) and all(same(w[k], d[k]) for k in w)
+
+
 def track(est):
     """Which real parameter each abstract tracked name stands for, with its original and alternative value."""
     shallow = est.get_params(deep=False)
-    deep = est.get_params(deep=True)
+    deep = walk_params(est)
     tr = {}
     plain = [n for n in PREFER if n in shallow] + [n for n in sorted(shallow) if n not in PREFER]
     for n in plain:
@@ -118,18 +141,24 @@ def track(est):
     if comps:
         from sktime.forecasting.base._base import BaseForecaster
         from sktime.forecasting.naive import NaiveForecaster
-        n = comps[-1]
-        if isinstance(deep[n], BaseForecaster):
+        # replace (as a whole) the forecaster component with the fewest parameters of its own, so that the deeper
+        # nested names stay available for the nested read / write checks
+        cand = sorted([n for n in comps if isinstance(deep[n], BaseForecaster)],
+                      key=lambda n: (len(deep[n].get_params(deep=True)), n))
+        if cand:
+            n = cand[0]
             tr["c"] = (n, deep[n], NaiveForecaster(strategy="last", sp=7))
             cname = n
-    # the nested parameter is taken from another component than the one that gets replaced as a whole
+    # the nested parameters are taken from other components than the one that gets replaced as a whole
     nested = [n for n in sorted(deep) if "__" in n and n.split("__")[-1] not in SKIP
               and not (cname and n.startswith(cname + "__"))]
-    for n in [x for x in nested if x.split("__")[-1] in PREFER] + nested:
-        a = alt_of(n, deep[n])
-        if a is not None:
-            tr["c__p"] = (n, deep[n], a)
-            break
+    for key, pool in (("c__p", [n for n in nested if n.count("__") == 1] or nested),
+                      ("c__c__p", [n for n in nested if n.count("__") >= 2])):
+        for n in [x for x in pool if x.split("__")[-1] in PREFER] + pool:
+            a = alt_of(n, deep[n])
+            if a is not None and not any(n == t[0] for t in tr.values()):
+                tr[key] = (n, deep[n], a)
+                break
     return tr
 
 
@@ -151,7 +180,8 @@ def deep_state(est):
 
     def visit(path, v):
         if hasattr(v, "get_params") and not isinstance(v, type):
-            out.append((path, id(v), bool(getattr(v, "_is_fitted", False))))
+            out.append((path, id(v), bool(getattr(v, "_is_fitted", False)),
+                        tuple(sorted(k for k in vars(v) if k.endswith("_") and not k.startswith("_")))))
             for k, w in v.get_params(deep=False).items():
                 visit(path + "." + k, w)
         elif isinstance(v, (list, tuple)):
@@ -171,9 +201,14 @@ def run_plan(entry, plan, seed, tid):
     def emit(op, name, rej, est, self_ok=True, fitted=None):
         ev.append({"tid": tid, "i": len(ev) + 1, "op": op, "name": name,
                    "obs": {"rej": rej, "params": tokens(est, tr), "fitted": bool(est.is_fitted if fitted is None else fitted),
-                           "self": bool(self_ok)}})
+                           "self": bool(self_ok), "sib": tokens(sib, tr), "sibfitted": bool(sib.is_fitted),
+                           "sibstate": deep_state(sib) == sib0, "deepok": deep_closure_ok(est)}})
     est = entry["factory"]()
     tr = track(est)
+    # a sibling built from the very same argument objects (same component list, same component instances): what is
+    # done to `est` must not show in it, except through component objects the two deliberately share
+    sib = type(est)(**est.get_params(deep=False))
+    sib0 = deep_state(sib)
     args, kw = fit_data(entry, seed)
     emit("construct", "", "", est)
     with joblib.parallel_backend("threading"):
@@ -273,8 +308,9 @@ def run(ctx):
         k = (4 if slow else 14) if ctx.quick else (20 if slow else 120)
         chosen = ctx.rng.sample(plans, k)
         # one fixed plan per estimator that touches every kind of operation
-        chosen.append([("set_alt", "p1"), ("set_alt", "c__p"), ("set_unknown", ""), ("clone", ""), ("apply_unfitted", ""),
-                       ("set_orig", "p1"), ("set_alt", "c"), ("fit", ""), ("get", "")])
+        chosen.append([("set_alt", "p1"), ("set_alt", "c__p"), ("set_alt", "c__c__p"), ("set_unknown", ""), ("clone", ""),
+                       ("apply_unfitted", ""), ("set_orig", "p1"), ("set_alt", "c"), ("fit", ""), ("get", "")])
+        chosen.append([("set_alt", "c"), ("set_alt", "c__c__p"), ("set_orig", "c"), ("fit", ""), ("set_alt", "c__p")])
         for plan in chosen:
             tid += 1
             try:
